@@ -6,7 +6,7 @@ from .vals import (Val, PyList, PyDict, ExcVal, Callable_, Int, Bool, Str, Bytes
                    TNone, TRef, TOpt, TSet, TMap, TSeq, TTuple, TRec, TOpaque, TLSet, mk_int, mk_bool, mk_str, fresh,
                    mk_none_opt, mk_some, opt_isnone, opt_inner, empty_set, empty_map, empty_seq, seq_unit, coerce, veq,
                    truth, ite_val, fresh_name)
-from .state import Unsupported, Raise, State
+from .state import Unsupported, Raise, State, feasible
 from .repo import BUILTIN_EXC
 from . import dsl
 
@@ -39,7 +39,7 @@ class CallMixin:
             if name in ("old", "implies", "result", "use", "hint", "iff", "fresh_ref", "subset", "union", "setminus", "mapdom",
                         "singleton", "setadd", "setdel", "mapset", "mapdel", "seqlen", "issub", "isinst", "typeof", "ite", "mapget",
                         "emptyset", "length", "inter", "exc_is", "some", "unopt", "isnone", "const", "cast", "elems", "distinct",
-                        "str_init", "str_last", "str_first", "has", "aslist", "inside", "confined", "rec_has", "rec_get", "rec_set", "log_count", "log_arg", "log_result", "log_result_field", "log_raised", "module", "lower", "alph", "charset", "alnum_chars", "raised"):
+                        "str_init", "str_last", "str_first", "has", "aslist", "inside", "confined", "rec_has", "rec_get", "rec_set", "log_count", "log_arg", "log_result", "log_result_field", "log_raised", "module", "lower", "alph", "charset", "alnum_chars", "raised", "as_any", "as_data"):
                 return Callable_("dslfn", name)
         mod = env.get("__mod__")
         if mod is not None:
@@ -182,6 +182,15 @@ class CallMixin:
     def heap_write(self, st, ref, field, value, node=None):
         field = self.real_field(ref.ty.cls, field)
         owner, fty = self.field_owner(ref.ty.cls, field)
+        if owner is None:
+            # the static class does not declare the field: a declared subclass does, and the path says the object is one (isinstance test)
+            subs = [n for n, d in dsl.REG.classes.items() if field in d.fields and ref.ty.cls in self.class_decl_chain(n)]
+            if len(subs) == 1 and not feasible(st.pc, z3.Not(self.isinstance_term(ref, subs[0]))):
+                ref = Val(TRef(subs[0]), ref.terms)
+                owner, fty = self.field_owner(ref.ty.cls, field)
+        if owner is None and self.cur_ci is not None and field in (self.cur_ci.decl.opts.get("untracked_fields") or ()):
+            self.note_assumption("assignments to the attribute .%s are not modelled (declared untracked by the contract of %s)" % (field, self.cur_ci.decl.qualname))
+            return
         if owner is None:
             raise Unsupported("assignment to undeclared field %s.%s" % (ref.ty.cls, field), node)
         try:
@@ -340,6 +349,11 @@ class CallMixin:
             return
         if isinstance(obj, Val) and isinstance(obj.ty, TRef):
             fty = self.field_type(obj.ty.cls, attr)
+            if fty is not None and isinstance(fty, TRef):
+                # a callable object kept in a field (self.f(...)): its __call__ contract
+                fobj = self.heap_read(st, obj, attr)
+                yield from self.call_attr(fobj, "__call__", args, kwargs, st, node)
+                return
             if fty is not None:    # callable stored in a field: not supported
                 raise Unsupported("call of field %s" % attr, node)
             yield from self.call_method(obj, attr, args, kwargs, st, node)
